@@ -276,3 +276,43 @@ Definition line_updates (cf : cfg) (d : dirp) (norder : nat) (cells : list sampl
            (combine (seq 0 (length cells)) cells).
 Definition line_solution (cf : cfg) (d : dirp) (norder : nat) (cells : list sample) : list (list ocell) :=
   finish cf d cells (apply_upds (zero_arr cf d) (line_updates cf d norder cells)).
+
+(* ------------------------------------------------------------------ VMap::_grid_fft: what the FFT path computes, pair by pair *)
+(* Variogram: as the direct algorithm without weights.  Covariance family (_vmap_load_cross): for every ordered pair of active nodes
+   (a, b) stored in the cell of their index difference, when z_ivar(a) and z_jvar(b) are defined:
+     N += 1, P += z_ivar(a) z_jvar(b), A += z_ivar(a), B += z_jvar(b);
+   non-centred covariance = P/N; covariance and covariogram = P/N - (A/N)(B/N) (means of the pairs of the lag);
+   cells without pair hold 0 (no TEST).  The fields u_hlo / u_hhi carry A and B. *)
+Definition fft_pair_updates (cf : cfg) (ncell c : nat) (a b : sample) : list upd :=
+  flat_map (fun iv => flat_map (fun jv =>
+     match zval a iv, zval b jv with
+     | Some x, Some y => [{| u_addr := c + var_rank iv jv * ncell; u_sw := 1; u_hlo := x; u_hhi := y; u_glo := x * y; u_ghi := x * y |}]
+     | _, _ => [] end) (seq 0 (S iv))) (seq 0 (c_nvar cf)).
+Definition vmap_fft_updates (cf : cfg) (nx : list nat) (cells : list sample) (nxx : list nat) : list upd :=
+  let ncell := grid_size (map_nx nxx) in
+  let nodes := combine (seq 0 (length cells)) cells in
+  flat_map (fun ra : nat * sample =>
+              if is_active cf (snd ra)
+              then flat_map (fun rb : nat * sample =>
+                               if is_active cf (snd rb)
+                               then match vmap_grid_cell nxx (rank_to_index nx (fst ra)) (rank_to_index nx (fst rb)) with
+                                    | Some c => fft_pair_updates cf ncell c (snd ra) (snd rb)
+                                    | None => [] end
+                               else []) nodes
+              else []) nodes.
+Definition fft_cell_out (cf : cfg) (c : cell) : ocell :=
+  if qleb (a_sw c) 0 then {| o_sw := 0; o_hh := None; o_gg := None |}
+  else
+    let m := match c_calc cf with Cov | Covg => (a_hlo c / a_sw c) * (a_hhi c / a_sw c) | _ => 0 end in
+    {| o_sw := a_sw c; o_hh := None; o_gg := Some (Qred (a_glo c / a_sw c - m), Qred (a_ghi c / a_sw c - m)) |}.
+Definition vmap_fft (cf : cfg) (nx : list nat) (cells : list sample) (nxx : list nat) : list (list ocell) :=
+  match c_calc cf with
+  | Vg => vmap_grid cf nx cells nxx
+  | _ =>
+      let ncell := grid_size (map_nx nxx) in
+      let arr := apply_upds (repeat cell0 (ncell * (c_nvar cf * (c_nvar cf + 1) / 2))) (vmap_fft_updates cf nx cells nxx) in
+      map (fun r => map (fft_cell_out cf) (block ncell r arr)) (seq 0 (c_nvar cf * (c_nvar cf + 1) / 2))
+  end.
+
+(* size of the zero-padded working arrays along one axis: (int) ceil((nxgrid + nxmap - 1) / 8.) * 8   (VMap.cpp, _grid_fft) *)
+Definition fft_size (ngrid nmap : nat) : nat := ((ngrid + nmap - 1 + 7) / 8 * 8)%nat.
